@@ -264,6 +264,8 @@ See also: guarded, rational
         if self.display < self.precision:
             v += self.__scaledr    # round
             v //= self.__scaledd   # reduce display precision
+        if v < 0:                  # sign, then magnitude (floor division would borrow from the integer part)
+            return '-' + self.__dfmt % ((-v)//self.__scaled, (-v)%self.__scaled)
         return self.__dfmt % (v//self.__scaled, v%self.__scaled)
 
     @classmethod
